@@ -119,8 +119,11 @@ int main(int argc, char **argv) {
       }
       Outcome o = run_case(sub, c);
       if (!failing) st.record(c, o);
-      if (o.kind == Outcome::INCONCLUSIVE && !failing)
-        fprintf(stderr, "INCONCLUSIVE %s/%s: %s\n", prop.id, sub.name, o.msg.c_str());
+      if (o.kind == Outcome::INCONCLUSIVE && !failing) {
+        std::string ip = replay_dir + "/" + prop.id + "-" + sub.name + "-inconclusive-s" + std::to_string(seed) + "p" + std::to_string(proc) + ".case";
+        write_file(ip, serialize(c) + "# " + o.msg + "\n");
+        fprintf(stderr, "INCONCLUSIVE %s/%s: %s (case saved to %s)\n", prop.id, sub.name, o.msg.c_str(), ip.c_str());
+      }
       if (o.kind == Outcome::FAIL) {
         failing = true;
         lastfail = c; lastmsg = o.msg;
